@@ -97,9 +97,16 @@ type tokeniser struct {
 	t       *byteTable
 }
 
-func newTokeniser(t *byteTable) *tokeniser {
+func newTokeniser(t *byteTable, only ...string) *tokeniser {
 	tk := &tokeniser{byFirst: map[byte][]string{}, t: t}
+	allowed := map[string]bool{}
+	for _, o := range only {
+		allowed[o] = true
+	}
 	for name := range t.Exp {
+		if len(only) > 0 && !allowed[name] {
+			continue
+		}
 		s := t.str[name]
 		tk.byFirst[s[0]] = append(tk.byFirst[s[0]], name)
 	}
